@@ -252,3 +252,378 @@ Print Assumptions C01_run_meets_spec_plain.
 Theorem C01_run_meets_spec : forall exc xs, valid_x exc xs = true -> spec_x xs (run_x exc xs) = true.
 Proof. exact run_x_meets_spec. Qed.
 Print Assumptions C01_run_meets_spec.
+
+(* --------------------------------------------------------------------------------------------------------------
+   THE TRANSLATED SOURCE (gen/Gen_HeapC01.v, gen/Gen_HeapC01X.v, regenerated by tools/cxx2heap.py on every run) of TestResult's counters, TestOutput::printTestsEnded and CommandLineTestRunner::runAllTests computes the model's cadd / is_failure / mk_summary / exit_value
+   -------------------------------------------------------------------------------------------------------------- *)
+From CppUVerif Require Import lib.CSem lib.CMem lib.CHeap gen.Gen_HeapC01 gen.Gen_HeapC01X C01_SrcTie.
+Local Open Scope Z_scope.
+Theorem C01_result_layout_is_the_source :
+  off_TestResult_output_ = 0 /\
+  off_TestResult_testCount_ = 1 /\
+  off_TestResult_runCount_ = 2 /\
+  off_TestResult_checkCount_ = 3 /\
+  off_TestResult_failureCount_ = 4 /\
+  off_TestResult_filteredOutCount_ = 5 /\
+  off_TestResult_ignoredCount_ = 6 /\
+  off_TestResult_totalExecutionTime_ = 7 /\
+  cells_TestResult = 13 /\
+  off_TestOutput_dotCount_ = 0 /\
+  off_TestOutput_verbose_ = 1 /\
+  off_TestOutput_color_ = 2 /\ off_TestOutput_progressIndication_ = 3 /\ cells_TestOutput = 4.
+Proof. exact result_layout_is_the_source. Qed.
+Print Assumptions C01_result_layout_is_the_source.
+
+Theorem C01_src_result_countTest_spec :
+  forall (fuel : nat) (h : heap) (evs : list qev) (fcs ifs : list Z) (rb : nat) (o : val)
+  (c : cnt) (t : Z) (r : list val),
+  result_rep h rb o c t r ->
+  Z.of_N (k_tests c) + 1 < 2 ^ 64 ->
+  src_result_countTest fuel h evs fcs ifs (HPtr rb 0) =
+  FOk (tt, upd h rb (result_cells o (cadd c one_test) t r), evs, fcs, ifs).
+Proof. exact src_result_countTest_spec. Qed.
+Print Assumptions C01_src_result_countTest_spec.
+
+Theorem C01_src_result_countRun_spec :
+  forall (fuel : nat) (h : heap) (evs : list qev) (fcs ifs : list Z) (rb : nat) (o : val)
+  (c : cnt) (t : Z) (r : list val),
+  result_rep h rb o c t r ->
+  Z.of_N (k_run c) + 1 < 2 ^ 64 ->
+  src_result_countRun fuel h evs fcs ifs (HPtr rb 0) =
+  FOk (tt, upd h rb (result_cells o (cadd c one_run) t r), evs, fcs, ifs).
+Proof. exact src_result_countRun_spec. Qed.
+Print Assumptions C01_src_result_countRun_spec.
+
+Theorem C01_src_result_countCheck_spec :
+  forall (fuel : nat) (h : heap) (evs : list qev) (fcs ifs : list Z) (rb : nat) (o : val)
+  (c : cnt) (t : Z) (r : list val),
+  result_rep h rb o c t r ->
+  Z.of_N (k_checks c) + 1 < 2 ^ 64 ->
+  src_result_countCheck fuel h evs fcs ifs (HPtr rb 0) =
+  FOk (tt, upd h rb (result_cells o (cadd c one_check) t r), evs, fcs, ifs).
+Proof. exact src_result_countCheck_spec. Qed.
+Print Assumptions C01_src_result_countCheck_spec.
+
+Theorem C01_src_result_countIgnored_spec :
+  forall (fuel : nat) (h : heap) (evs : list qev) (fcs ifs : list Z) (rb : nat) (o : val)
+  (c : cnt) (t : Z) (r : list val),
+  result_rep h rb o c t r ->
+  Z.of_N (k_ign c) + 1 < 2 ^ 64 ->
+  src_result_countIgnored fuel h evs fcs ifs (HPtr rb 0) =
+  FOk (tt, upd h rb (result_cells o (cadd c one_ign) t r), evs, fcs, ifs).
+Proof. exact src_result_countIgnored_spec. Qed.
+Print Assumptions C01_src_result_countIgnored_spec.
+
+Theorem C01_src_result_countFilteredOut_spec :
+  forall (fuel : nat) (h : heap) (evs : list qev) (fcs ifs : list Z) (rb : nat) (o : val)
+  (c : cnt) (t : Z) (r : list val),
+  result_rep h rb o c t r ->
+  Z.of_N (k_filt c) + 1 < 2 ^ 64 ->
+  src_result_countFilteredOut fuel h evs fcs ifs (HPtr rb 0) =
+  FOk (tt, upd h rb (result_cells o (cadd c one_filt) t r), evs, fcs, ifs).
+Proof. exact src_result_countFilteredOut_spec. Qed.
+Print Assumptions C01_src_result_countFilteredOut_spec.
+
+Theorem C01_src_result_addFailure_spec :
+  forall (fuel : nat) (h : heap) (evs : list qev) (fcs ifs : list Z) (rb : nat) (o : val)
+  (c : cnt) (t : Z) (r : list val),
+  result_rep h rb o c t r ->
+  Z.of_N (k_fail c) + 1 < 2 ^ 64 ->
+  src_result_addFailure fuel h evs fcs ifs (HPtr rb 0) =
+  FOk (tt, upd h rb (result_cells o (cadd c one_fail) t r), evs ++ [QPrintFailure], fcs, ifs).
+Proof. exact src_result_addFailure_spec. Qed.
+Print Assumptions C01_src_result_addFailure_spec.
+
+Theorem C01_src_result_getFailureCount_spec :
+  forall (fuel : nat) (h : heap) (evs : list qev) (fcs ifs : list Z) (rb : nat) (o : val)
+  (c : cnt) (t : Z) (r : list val),
+  result_rep h rb o c t r ->
+  src_result_getFailureCount fuel h evs fcs ifs (HPtr rb 0) = FOk (Z.of_N (k_fail c), h, evs, fcs, ifs).
+Proof. exact src_result_getFailureCount_spec. Qed.
+Print Assumptions C01_src_result_getFailureCount_spec.
+
+Theorem C01_src_result_isFailure_spec :
+  forall (fuel : nat) (h : heap) (evs : list qev) (fcs ifs : list Z) (rb : nat) (o : val)
+  (c : cnt) (t : Z) (r : list val),
+  result_rep h rb o c t r ->
+  Z.of_N (k_run c) + Z.of_N (k_ign c) < 2 ^ 64 ->
+  src_result_isFailure fuel h evs fcs ifs (HPtr rb 0) = FOk (b2z (is_failure c), h, evs, fcs, ifs).
+Proof. exact src_result_isFailure_spec. Qed.
+Print Assumptions C01_src_result_isFailure_spec.
+
+Theorem C01_isFailure_without_the_bound_differs :
+  result_rep wrap_heap 0 (VInt 0) wrap_cnt 0 [VInt 0; VInt 0; VInt 0; VInt 0; VInt 0] /\
+  cnt_ok wrap_cnt /\
+  is_failure wrap_cnt = false /\
+  src_result_isFailure 0 wrap_heap [] [] [] (HPtr 0 0) = FOk (1, wrap_heap, [], [], []).
+Proof. exact isFailure_without_the_bound_differs. Qed.
+Print Assumptions C01_isFailure_without_the_bound_differs.
+
+Theorem C01_src_output_printTestsEnded_spec :
+  forall (fuel : nat) (h : heap) (evs : list qev) (fcs ifs : list Z) (rb : nat) (o : val)
+  (c : cnt) (t : Z) (r : list val) (ob : nat) (d v : val) (color : bool) (p : val),
+  result_rep h rb o c t r ->
+  output_rep h ob d v color p ->
+  Z.of_N (k_run c) + Z.of_N (k_ign c) < 2 ^ 64 ->
+  src_output_printTestsEnded fuel h evs fcs ifs (HPtr ob 0) (HPtr rb 0) =
+  FOk (tt, upd h ob (output_cells (VInt 0) v color p), evs ++ summary_text color c t, fcs, ifs).
+Proof. exact src_output_printTestsEnded_spec. Qed.
+Print Assumptions C01_src_output_printTestsEnded_spec.
+
+Theorem C01_summary_text_denotes_mk_summary :
+  forall (color : bool) (c : cnt) (t : Z), parse_summary (summary_text color c t) = Some (mk_summary c, t).
+Proof. exact summary_text_denotes_mk_summary. Qed.
+Print Assumptions C01_summary_text_denotes_mk_summary.
+
+Theorem C01_m_ok_iff :
+  forall c : cnt, m_ok (mk_summary c) = true <-> k_fail c = 0%N /\ (0 < k_run c + k_ign c)%N.
+Proof. exact m_ok_iff. Qed.
+Print Assumptions C01_m_ok_iff.
+
+Theorem C01_summary_text_OK :
+  forall (color : bool) (c : cnt) (t : Z),
+  has
+  (PText
+  (String.String (Ascii.Ascii true true true true false false true false)
+  (String.String (Ascii.Ascii true true false true false false true false)
+  (String.String (Ascii.Ascii false false false false false true false false)
+  (String.String (Ascii.Ascii false false false true false true false false) String.EmptyString)))))
+  (summary_text color c t) = m_ok (mk_summary c).
+Proof. exact summary_text_OK. Qed.
+Print Assumptions C01_summary_text_OK.
+
+Theorem C01_summary_text_after_Errors :
+  forall (color : bool) (c : cnt) (t : Z),
+  next_after
+  (PText
+  (String.String (Ascii.Ascii true false true false false false true false)
+  (String.String (Ascii.Ascii false true false false true true true false)
+  (String.String (Ascii.Ascii false true false false true true true false)
+  (String.String (Ascii.Ascii true true true true false true true false)
+  (String.String (Ascii.Ascii false true false false true true true false)
+  (String.String (Ascii.Ascii true true false false true true true false)
+  (String.String (Ascii.Ascii false false false false false true false false)
+  (String.String (Ascii.Ascii false false false true false true false false)
+  String.EmptyString))))))))) (summary_text color c t) =
+  (if is_failure c
+  then
+  Some
+  (if (0 <? k_fail c)%N
+  then PNum (Z.of_N (k_fail c))
+  else
+  PText
+  (String.String (Ascii.Ascii false true false false true true true false)
+  (String.String (Ascii.Ascii true false false false false true true false)
+  (String.String (Ascii.Ascii false true true true false true true false)
+  (String.String (Ascii.Ascii false false false false false true false false)
+  (String.String (Ascii.Ascii false true true true false true true false)
+  (String.String (Ascii.Ascii true true true true false true true false)
+  (String.String (Ascii.Ascii false false true false true true true false)
+  (String.String (Ascii.Ascii false false false true false true true false)
+  (String.String (Ascii.Ascii true false false true false true true false)
+  (String.String (Ascii.Ascii false true true true false true true false)
+  (String.String (Ascii.Ascii true true true false false true true false)
+  (String.String
+  (Ascii.Ascii false false true true false true false false)
+  (String.String
+  (Ascii.Ascii false false false false false true false false)
+  String.EmptyString))))))))))))))
+  else None).
+Proof. exact summary_text_after_Errors. Qed.
+Print Assumptions C01_summary_text_after_Errors.
+
+Theorem C01_summary_text_numbers :
+  forall (color : bool) (c : cnt) (t : Z),
+  nums_labels (summary_text color c t) =
+  (if is_failure c && (0 <? k_fail c)%N
+  then
+  [(Z.of_N (k_fail c),
+  String.String (Ascii.Ascii false false false false false true false false)
+  (String.String (Ascii.Ascii false true true false false true true false)
+  (String.String (Ascii.Ascii true false false false false true true false)
+  (String.String (Ascii.Ascii true false false true false true true false)
+  (String.String (Ascii.Ascii false false true true false true true false)
+  (String.String (Ascii.Ascii true false true false true true true false)
+  (String.String (Ascii.Ascii false true false false true true true false)
+  (String.String (Ascii.Ascii true false true false false true true false)
+  (String.String (Ascii.Ascii true true false false true true true false)
+  (String.String (Ascii.Ascii false false true true false true false false)
+  (String.String (Ascii.Ascii false false false false false true false false)
+  String.EmptyString)))))))))))]
+  else []) ++
+  [(Z.of_N (k_tests c),
+  String.String (Ascii.Ascii false false false false false true false false)
+  (String.String (Ascii.Ascii false false true false true true true false)
+  (String.String (Ascii.Ascii true false true false false true true false)
+  (String.String (Ascii.Ascii true true false false true true true false)
+  (String.String (Ascii.Ascii false false true false true true true false)
+  (String.String (Ascii.Ascii true true false false true true true false)
+  (String.String (Ascii.Ascii false false true true false true false false)
+  (String.String (Ascii.Ascii false false false false false true false false)
+  String.EmptyString))))))));
+  (Z.of_N (k_run c),
+  String.String (Ascii.Ascii false false false false false true false false)
+  (String.String (Ascii.Ascii false true false false true true true false)
+  (String.String (Ascii.Ascii true false false false false true true false)
+  (String.String (Ascii.Ascii false true true true false true true false)
+  (String.String (Ascii.Ascii false false true true false true false false)
+  (String.String (Ascii.Ascii false false false false false true false false) String.EmptyString))))));
+  (Z.of_N (k_checks c),
+  String.String (Ascii.Ascii false false false false false true false false)
+  (String.String (Ascii.Ascii true true false false false true true false)
+  (String.String (Ascii.Ascii false false false true false true true false)
+  (String.String (Ascii.Ascii true false true false false true true false)
+  (String.String (Ascii.Ascii true true false false false true true false)
+  (String.String (Ascii.Ascii true true false true false true true false)
+  (String.String (Ascii.Ascii true true false false true true true false)
+  (String.String (Ascii.Ascii false false true true false true false false)
+  (String.String (Ascii.Ascii false false false false false true false false)
+  String.EmptyString)))))))));
+  (Z.of_N (k_ign c),
+  String.String (Ascii.Ascii false false false false false true false false)
+  (String.String (Ascii.Ascii true false false true false true true false)
+  (String.String (Ascii.Ascii true true true false false true true false)
+  (String.String (Ascii.Ascii false true true true false true true false)
+  (String.String (Ascii.Ascii true true true true false true true false)
+  (String.String (Ascii.Ascii false true false false true true true false)
+  (String.String (Ascii.Ascii true false true false false true true false)
+  (String.String (Ascii.Ascii false false true false false true true false)
+  (String.String (Ascii.Ascii false false true true false true false false)
+  (String.String (Ascii.Ascii false false false false false true false false)
+  String.EmptyString))))))))));
+  (Z.of_N (k_filt c),
+  String.String (Ascii.Ascii false false false false false true false false)
+  (String.String (Ascii.Ascii false true true false false true true false)
+  (String.String (Ascii.Ascii true false false true false true true false)
+  (String.String (Ascii.Ascii false false true true false true true false)
+  (String.String (Ascii.Ascii false false true false true true true false)
+  (String.String (Ascii.Ascii true false true false false true true false)
+  (String.String (Ascii.Ascii false true false false true true true false)
+  (String.String (Ascii.Ascii true false true false false true true false)
+  (String.String (Ascii.Ascii false false true false false true true false)
+  (String.String (Ascii.Ascii false false false false false true false false)
+  (String.String (Ascii.Ascii true true true true false true true false)
+  (String.String (Ascii.Ascii true false true false true true true false)
+  (String.String (Ascii.Ascii false false true false true true true false)
+  (String.String
+  (Ascii.Ascii false false true true false true false false)
+  (String.String
+  (Ascii.Ascii false false false false false true false false)
+  String.EmptyString)))))))))))))));
+  (t,
+  String.String (Ascii.Ascii false false false false false true false false)
+  (String.String (Ascii.Ascii true false true true false true true false)
+  (String.String (Ascii.Ascii true true false false true true true false)
+  (String.String (Ascii.Ascii true false false true false true false false) String.EmptyString))))].
+Proof. exact summary_text_numbers. Qed.
+Print Assumptions C01_summary_text_numbers.
+
+Theorem C01_src_runner_list1 :
+  forall (fuel : nat) (mem : heap) (evs : list qev) (fcs ifs : list Z) (n l1 l2 l3 rv sh seed : Z) (this : hptr),
+  l1 <> 0 ->
+  src_runner_runAllTests fuel mem evs fcs ifs n l1 l2 l3 rv sh seed this =
+  FOk (0, mem, evs ++ [QInit; QNewResult; QList 1], fcs, ifs, n, l1, l2, l3, rv, sh, seed).
+Proof. exact src_runner_list1. Qed.
+Print Assumptions C01_src_runner_list1.
+
+Theorem C01_src_runner_runAllTests_spec :
+  forall (fuel : nat) (mem : heap) (evs : list qev) (fcs ifs : list Z) (n rv sh seed : Z) (this : hptr),
+  0 <= n < 2 ^ 64 ->
+  (Z.to_nat n < fuel)%nat ->
+  (Z.to_nat n <= length fcs)%nat ->
+  (Z.to_nat n <= length ifs)%nat ->
+  nonneg (firstn (Z.to_nat n) fcs) ->
+  sumz (firstn (Z.to_nat n) fcs) < 2 ^ 64 ->
+  src_runner_runAllTests fuel mem evs fcs ifs n 0 0 0 rv sh seed this =
+  FOk
+  (exit_value (Z.to_N (sumz (firstn (Z.to_nat n) fcs))) (Z.to_N (cntnz (firstn (Z.to_nat n) ifs))), mem,
+  evs ++ run_events rv sh seed n, skipn (Z.to_nat n) fcs, skipn (Z.to_nat n) ifs, n, 0, 0, 0, rv, sh, seed).
+Proof. exact src_runner_runAllTests_spec. Qed.
+Print Assumptions C01_src_runner_runAllTests_spec.
+
+Theorem C01_run_events_counts :
+  forall rv sh seed n : Z,
+  0 <= n ->
+  count_occ qev_eq_dec (run_events rv sh seed n) QRunAll = Z.to_nat n /\
+  count_occ qev_eq_dec (run_events rv sh seed n) QNewResult = Z.to_nat n /\
+  count_occ qev_eq_dec (run_events rv sh seed n) QReverse = (if z2b rv then 1%nat else 0%nat) /\
+  count_occ qev_eq_dec (run_events rv sh seed n) QInit = 1%nat /\
+  count_occ qev_eq_dec (run_events rv sh seed n) (QShuffle seed) = (if z2b sh then Z.to_nat n else 0%nat).
+Proof. exact run_events_counts. Qed.
+Print Assumptions C01_run_events_counts.
+
+Theorem C01_reverse_before_every_run :
+  forall (rv sh seed n : Z) (l1 l2 : list qev),
+  0 <= n ->
+  run_events rv sh seed n = l1 ++ QRunAll :: l2 ->
+  In QInit l1 /\ (z2b rv = true -> In QReverse l1) /\ ~ In QReverse l2 /\ ~ In QInit l2.
+Proof. exact reverse_before_every_run. Qed.
+Print Assumptions C01_reverse_before_every_run.
+
+Theorem C01_exit_zero_iff :
+  forall (n : nat) (fcs ifs : list Z),
+  nonneg (firstn n fcs) ->
+  sumz (firstn n fcs) < 2 ^ 32 ->
+  cntnz (firstn n ifs) < 2 ^ 32 ->
+  exit_value (Z.to_N (sumz (firstn n fcs))) (Z.to_N (cntnz (firstn n ifs))) = 0 <->
+  all0 (firstn n fcs) /\ all0 (firstn n ifs).
+Proof. exact exit_zero_iff. Qed.
+Print Assumptions C01_exit_zero_iff.
+
+Theorem C01_src_runner_exit_zero_iff :
+  forall (fuel : nat) (mem : heap) (evs : list qev) (fcs ifs : list Z) (n rv sh seed : Z) (this : hptr),
+  0 <= n < 2 ^ 32 ->
+  (Z.to_nat n < fuel)%nat ->
+  (Z.to_nat n <= length fcs)%nat ->
+  (Z.to_nat n <= length ifs)%nat ->
+  nonneg (firstn (Z.to_nat n) fcs) ->
+  sumz (firstn (Z.to_nat n) fcs) < 2 ^ 32 ->
+  exists v : Z,
+  src_runner_runAllTests fuel mem evs fcs ifs n 0 0 0 rv sh seed this =
+  FOk
+  (v, mem, evs ++ run_events rv sh seed n, skipn (Z.to_nat n) fcs, skipn (Z.to_nat n) ifs, n, 0, 0, 0, rv,
+  sh, seed) /\ (v = 0 <-> all0 (firstn (Z.to_nat n) fcs) /\ all0 (firstn (Z.to_nat n) ifs)).
+Proof. exact src_runner_exit_zero_iff. Qed.
+Print Assumptions C01_src_runner_exit_zero_iff.
+
+Theorem C01_exit_value_wraps :
+  exit_value (Z.to_N (sumz [2 ^ 32])) (Z.to_N (cntnz [1])) = 0 /\
+  ~ all0 [2 ^ 32] /\
+  src_runner_runAllTests 2 [] [] [2 ^ 32] [1] 1 0 0 0 0 0 0 HNull =
+  FOk (0, [], [QInit; QPrintTestRun 1 1; QNewResult; QRunAll], [], [], 1, 0, 0, 0, 0, 0, 0).
+Proof. exact exit_value_wraps. Qed.
+Print Assumptions C01_exit_value_wraps.
+
+Theorem C01_runner_loop_accumulates :
+  forall (exc : bool) (cfg : config) (tests : list rtest) (n : nat) (loop : N) (s : st)
+  (ft fe : N) (rs : list rep_obs) (s2 : st) (a b : N),
+  runner_loop exc cfg tests n loop s ft fe = (rs, s2, a, b, ONormal) ->
+  length (rep_cnts exc cfg tests n loop s) = n /\
+  a = (ft + ft_of (rep_cnts exc cfg tests n loop s))%N /\ b = (fe + fe_of (rep_cnts exc cfg tests n loop s))%N.
+Proof. exact runner_loop_accumulates. Qed.
+Print Assumptions C01_runner_loop_accumulates.
+
+Theorem C01_src_runner_agrees_with_runner_loop :
+  forall (exc : bool) (cfg : config) (tests : list rtest) (n : nat) (s : st) (rs : list rep_obs)
+  (s2 : st) (a b : N) (fuel : nat) (mem : heap) (evs : list qev) (rv sh seed : Z)
+  (this : hptr),
+  runner_loop exc cfg tests n 0 s 0 0 = (rs, s2, a, b, ONormal) ->
+  Z.of_nat n < 2 ^ 64 ->
+  Z.of_N a < 2 ^ 64 ->
+  (n < fuel)%nat ->
+  let cs := rep_cnts exc cfg tests n 0 s in
+  src_runner_runAllTests fuel mem evs (map fcount_of cs) (map isfail_of cs) (Z.of_nat n) 0 0 0 rv sh seed this =
+  FOk
+  (exit_value a b, mem, evs ++ run_events rv sh seed (Z.of_nat n), [], [], Z.of_nat n, 0, 0, 0, rv, sh, seed).
+Proof. exact src_runner_agrees_with_runner_loop. Qed.
+Print Assumptions C01_src_runner_agrees_with_runner_loop.
+
+Theorem C01_stream_values_are_the_getters :
+  forall (fuel : nat) (h : heap) (evs : list qev) (fcs ifs : list Z) (rb : nat) (o : val)
+  (c : cnt) (t : Z) (r : list val),
+  result_rep h rb o c t r ->
+  Z.of_N (k_run c) + Z.of_N (k_ign c) < 2 ^ 64 ->
+  src_result_getFailureCount fuel h evs fcs ifs (HPtr rb 0) = FOk (fcount_of c, h, evs, fcs, ifs) /\
+  src_result_isFailure fuel h evs fcs ifs (HPtr rb 0) = FOk (isfail_of c, h, evs, fcs, ifs).
+Proof. exact stream_values_are_the_getters. Qed.
+Print Assumptions C01_stream_values_are_the_getters.
